@@ -13,6 +13,10 @@
 (*   c5 instance.Lock()                                 -> hook send.locked*)
 (*   c6 newRequestMessage: nextSequenceNumber()         -> hook chunk.write*)
 (*   c8 write chunk j; number chunk j+1 (-> chunk.write) or unlock, Done   *)
+(*      or (c6): the context had ended before the call: newRequestMessage  *)
+(*      takes a number, the chunk loop returns the error before the first  *)
+(*      chunk.write; the number is handed back (nothing reached the wire)  *)
+(*      -> "fail0"                                                         *)
 (*      or: write chunk j, then the context has ended: the loop returns    *)
 (*      the error before chunk j+1 is numbered (unlock, Done) -> "abort"   *)
 (* renewer   renew -> open -> handleOpenSecureChannelResponse              *)
@@ -42,8 +46,10 @@ CONSTANTS Senders,        \* sender goroutines, e.g. {"p1", "p2"}
           RenewMayFail,   \* the OPN response may fail to arrive in time
           Gen,            \* TRUE: record the schedule in hist and print terminal behaviours
           MayAbort,       \* a sender's context may end in the middle of a multi-chunk message
+          MayFailEarly,   \* a sender's context may have ended before anything of its message is written
           Dev_GateGap, Dev_FailedRenewSeq,
-          Dev_ResetSeqOnAbort   \* (demo) an aborted send hands "its" sequence numbers back although chunks were written
+          Dev_ResetSeqOnAbort,  \* (demo) an aborted send hands "its" sequence numbers back although chunks were written
+          Dev_SeqConsumedOnEarlyFailure \* (demo, repaired in d8b779a) a send that fails before its first chunk keeps the number it took
 
 Procs == Senders \cup {"renew"}
 Insts == {1, 2}
@@ -115,6 +121,16 @@ C8(p) == /\ pc[p] = "c8" /\ left[p] > 0
                  /\ UNCHANGED <<instLock, pending, pc>>
          /\ UNCHANGED <<first, gate, active, myInst>>
 
+\* the sender's context had already ended (or the request id is a duplicate, or encoding fails):
+\* the message is numbered, nothing is written, the call returns the error; the counter goes back
+C6fail(p) ==
+         /\ MayFailEarly /\ pc[p] = "c6"
+         /\ seq' = IF Dev_SeqConsumedOnEarlyFailure THEN [seq EXCEPT ![myInst[p]] = NextSeq(@)] ELSE seq
+         /\ instLock' = [instLock EXCEPT ![myInst[p]] = "none"]
+         /\ pending' = pending - 1
+         /\ Goto(p, "done") /\ Rec(p, "fail0")
+         /\ UNCHANGED <<first, gate, active, myInst, left, cur, wire>>
+
 \* the context ends while the message is being written: chunk j goes out, the loop's ctx check
 \* stops before chunk j+1 is numbered; the numbers used so far stay used
 C8abort(p) ==
@@ -157,7 +173,7 @@ R10 == /\ pc[R] = "r10" /\ instLock' = [instLock EXCEPT ![1] = "none"] /\ gate' 
        /\ Goto(R, "done") /\ Rec(R, "done")
        /\ UNCHANGED <<first, pending, seq, active, myInst, left, cur, wire>>
 
-Next == \/ \E p \in Senders : C1(p) \/ C2(p) \/ C4(p) \/ C5(p) \/ C6(p) \/ C8(p) \/ C8abort(p)
+Next == \/ \E p \in Senders : C1(p) \/ C2(p) \/ C4(p) \/ C5(p) \/ C6(p) \/ C6fail(p) \/ C8(p) \/ C8abort(p)
         \/ R1 \/ R2 \/ R3 \/ R5 \/ R6 \/ R7ok \/ R7fail \/ R10
 
 Spec == Init /\ [][Next]_vars
